@@ -18,6 +18,25 @@ MAXN_QUICK = 100
 MAXN_THOROUGH = 400
 
 
+def print_programs(tier):
+    """print statements whose arguments need evaluation (in lazy mode they are the last thing evaluated; the polls made while an
+    argument is evaluated, possibly while a variable is forced for the first time, are cancellation points like any other)"""
+    v, c, s, i = A.var, A.cap, A.string, A.integer
+    f1 = A.file([A.stanza("(module) @root ", [A.let(v("x"), A.call("source-text", c("root"))), A.node(v("n")), A.attrn(v("n"), A.attr("t", s("a"))),
+                                              A.prnt(s("x ="), v("x")), A.prnt(s("root ="), c("root"), A.call("node-type", c("root")))])])
+    f2 = A.file([A.stanza("(identifier) @id ", [A.node(A.svar(c("id"), "n")), A.let(v("y"), A.call("plus", i(1), i(2))),
+                                                A.prnt(A.svar(c("id"), "n"), A.call("source-text", c("id"))), A.prnt(v("y"))])])
+    f3 = A.file([A.stanza("(module) @m ", [A.mut(v("k"), A.lst(i(1))), A.let(v("z"), A.lst(v("k"), A.call("node-type", c("m")))),
+                                           A.prnt(v("z"), A.listc(A.call("plus", v("e"), i(1)), "e", A.lst(i(1), i(2)))), A.node(v("n")),
+                                           A.prnt(A.call("named-child-count", c("m")))])])
+    out = []
+    srcs = [1, 2, 3] if tier == "quick" else list(range(1, A.n_sources() + 1))
+    for k, f in enumerate((f1, f2, f3)):
+        for sidx in srcs:
+            out += A.both_modes("c11p-%d-%d" % (k, sidx), f, sidx)
+    return out
+
+
 def run(tier):
     run0 = X.ExecRun(PROP, tier)
     d = C.workdir("c11")
@@ -25,6 +44,7 @@ def run(tier):
     nprog = 50 if tier == "quick" else 400
     C.gen_cases(nprog, C.seed() * 1000 + 110, raw, "default")
     base = C.read_ndjson(raw)
+    base += print_programs(tier)
     for c in base:
         c["cancel_at"] = 0
     run0.add_cases("c11_base", base)
